@@ -167,6 +167,7 @@ struct _vbi3_bit_slicer {
 	unsigned int		frc;
 	unsigned int		frc_bits;
 	unsigned int		total_bits;
+	unsigned int		max_cri_points;
 	unsigned int		payload;
 	unsigned int		endian;
 	unsigned int		bytes_per_sample;
